@@ -47,6 +47,13 @@ def step (st : St) : List String → St × List String
       let t := tryRead st
       (t.1, if t.1.reading then [] else t.2)
     else (st, [])
+  -- bytes arrive and the pending read's context is cancelled at that instant
+  | ["sendc", h] =>
+    let st := { st with r := recv st.r (dec h) }
+    if st.reading then
+      let t := readCancelled classify st.r
+      ({ st with r := t.1, reading := false }, match t.2 with | some o => showR o | none => ["cancelled"])
+    else (st, [])
   | ["read"] => if st.reading then (st, ["busy"]) else tryRead st
   -- a Read cancelled between its start and the clearing of its deadline returns the cancellation and takes nothing
   | ["readx"] => if st.reading then (st, ["busy"]) else (st, ["cancelled"])
